@@ -216,9 +216,11 @@ func buildSimnode(tag string) (*build, error) {
 	}
 	if out, err := run(repo, nil, "git", "rev-parse", "HEAD"); err == nil {
 		b.head = strings.TrimSpace(out)
-	}
-	if out, err := run(repo, nil, "sh", "-c", "git diff HEAD | sha1sum | cut -c1-12"); err == nil {
-		b.diff = strings.TrimSpace(out)
+		if out, err := run(repo, nil, "sh", "-c", "git diff HEAD 2>/dev/null | sha1sum | cut -c1-12"); err == nil {
+			b.diff = strings.TrimSpace(out)
+		}
+	} else {
+		b.head = "(not a git checkout: " + repo + ")"
 	}
 	b.wall = time.Since(t0)
 	return b, nil
